@@ -672,6 +672,10 @@ var maxU64 = new(big.Int).Sub(new(big.Int).Lsh(big.NewInt(1), 64), big.NewInt(1)
 
 // evalMod abstractly evaluates an expression over uint64 parameters px, py with modulus M.
 func (f *Fn) evalMod(e ast.Expr, px, py types.Object, M *big.Int, extern func(call *ast.CallExpr) bool) (modAbs, error) {
+	return f.evalModE(e, px, py, M, extern, nil)
+}
+
+func (f *Fn) evalModE(e ast.Expr, px, py types.Object, M *big.Int, extern func(call *ast.CallExpr) bool, env map[types.Object]modAbs) (modAbs, error) {
 	e = ast.Unparen(e)
 	if tv, ok := f.Info.Types[e]; ok && tv.Value != nil {
 		v, ok := constToVal(tv.Value).(*big.Int)
@@ -683,6 +687,9 @@ func (f *Fn) evalMod(e ast.Expr, px, py types.Object, M *big.Int, extern func(ca
 	switch x := e.(type) {
 	case *ast.Ident:
 		o := f.Info.ObjectOf(x)
+		if v, ok := env[o]; ok {
+			return v, nil
+		}
 		if o == px {
 			return modAbs{lo: big.NewInt(0), hi: maxU64, linOK: true, cx: big.NewInt(1), cy: big.NewInt(0), c0: big.NewInt(0)}, nil
 		}
@@ -697,15 +704,27 @@ func (f *Fn) evalMod(e ast.Expr, px, py types.Object, M *big.Int, extern func(ca
 		}
 		return modAbs{}, fmt.Errorf("call %s", types.ExprString(x.Fun))
 	case *ast.BinaryExpr:
-		l, err := f.evalMod(x.X, px, py, M, extern)
+		l, err := f.evalModE(x.X, px, py, M, extern, env)
 		if err != nil {
 			return modAbs{}, err
 		}
-		r, err := f.evalMod(x.Y, px, py, M, extern)
+		r, err := f.evalModE(x.Y, px, py, M, extern, env)
 		if err != nil {
 			return modAbs{}, err
 		}
 		switch x.Op {
+		case token.SUB:
+			out := modAbs{lo: new(big.Int).Sub(l.lo, r.hi), hi: new(big.Int).Sub(l.hi, r.lo)}
+			if out.lo.Sign() < 0 {
+				return modAbs{}, fmt.Errorf("possible uint64 underflow in %s (lower bound %s)", types.ExprString(x), out.lo)
+			}
+			if l.linOK && r.linOK {
+				out.linOK = true
+				out.cx = new(big.Int).Mod(new(big.Int).Sub(l.cx, r.cx), M)
+				out.cy = new(big.Int).Mod(new(big.Int).Sub(l.cy, r.cy), M)
+				out.c0 = new(big.Int).Mod(new(big.Int).Sub(l.c0, r.c0), M)
+			}
+			return out, nil
 		case token.ADD:
 			out := modAbs{lo: new(big.Int).Add(l.lo, r.lo), hi: new(big.Int).Add(l.hi, r.hi)}
 			if out.hi.Cmp(maxU64) > 0 {
@@ -736,6 +755,239 @@ func (f *Fn) evalMod(e ast.Expr, px, py types.Object, M *big.Int, extern func(ca
 		return modAbs{}, fmt.Errorf("operator %s", x.Op)
 	}
 	return modAbs{}, fmt.Errorf("expression %T", e)
+}
+
+// joinMod is the least upper bound: the interval hull; the congruence survives only when
+// both sides agree on it.
+func joinMod(a, b modAbs, M *big.Int) modAbs {
+	out := modAbs{lo: a.lo, hi: a.hi}
+	if b.lo.Cmp(out.lo) < 0 {
+		out.lo = b.lo
+	}
+	if b.hi.Cmp(out.hi) > 0 {
+		out.hi = b.hi
+	}
+	eq := func(x, y *big.Int) bool {
+		return new(big.Int).Mod(new(big.Int).Sub(x, y), M).Sign() == 0
+	}
+	if a.linOK && b.linOK && eq(a.cx, b.cx) && eq(a.cy, b.cy) && eq(a.c0, b.c0) {
+		out.linOK, out.cx, out.cy, out.c0 = true, a.cx, a.cy, a.c0
+	}
+	return out
+}
+
+// evalModBody abstractly executes a straight-line body with if-statements: local
+// definitions, compound assignments, branches on a comparison between a variable and a
+// constant (the variable's interval is refined on each side), and returns. The result is
+// the join over every return. Loops and anything else are undecided (error).
+func (f *Fn) evalModBody(px, py types.Object, M *big.Int, extern func(call *ast.CallExpr) bool) (modAbs, []*ast.ReturnStmt, error) {
+	var rets []*ast.ReturnStmt
+	var result *modAbs
+	one := big.NewInt(1)
+	clone := func(env map[types.Object]modAbs) map[types.Object]modAbs {
+		o := map[types.Object]modAbs{}
+		for k, v := range env {
+			o[k] = v
+		}
+		return o
+	}
+	// refine returns the environments of the true and false sides of cond (nil = that
+	// side is infeasible)
+	refine := func(cond ast.Expr, env map[types.Object]modAbs) (t, e map[types.Object]modAbs, err error) {
+		be, ok := ast.Unparen(cond).(*ast.BinaryExpr)
+		if !ok {
+			return nil, nil, fmt.Errorf("condition %s", types.ExprString(cond))
+		}
+		op := be.Op
+		vx, cx := be.X, be.Y
+		id, isId := ast.Unparen(vx).(*ast.Ident)
+		if !isId || f.Info.Types[vx].Value != nil {
+			// constant on the left: mirror
+			vx, cx = be.Y, be.X
+			id, isId = ast.Unparen(vx).(*ast.Ident)
+			switch op {
+			case token.LSS:
+				op = token.GTR
+			case token.GTR:
+				op = token.LSS
+			case token.LEQ:
+				op = token.GEQ
+			case token.GEQ:
+				op = token.LEQ
+			}
+		}
+		if !isId {
+			return nil, nil, fmt.Errorf("condition %s does not compare a variable", types.ExprString(cond))
+		}
+		obj := f.Info.ObjectOf(id)
+		cur, err := f.evalModE(id, px, py, M, extern, env)
+		if err != nil {
+			return nil, nil, err
+		}
+		k, err := f.evalModE(cx, px, py, M, extern, env)
+		if err != nil {
+			return nil, nil, err
+		}
+		if k.lo.Cmp(k.hi) != 0 {
+			return nil, nil, fmt.Errorf("condition %s does not compare with a constant", types.ExprString(cond))
+		}
+		c := k.lo
+		// [lo,hi] for the true side and for the false side
+		var tlo, thi, elo, ehi *big.Int
+		switch op {
+		case token.GTR: // v > c | v <= c
+			tlo, thi, elo, ehi = new(big.Int).Add(c, one), cur.hi, cur.lo, c
+		case token.GEQ: // v >= c | v < c
+			tlo, thi, elo, ehi = c, cur.hi, cur.lo, new(big.Int).Sub(c, one)
+		case token.LSS: // v < c | v >= c
+			tlo, thi, elo, ehi = cur.lo, new(big.Int).Sub(c, one), c, cur.hi
+		case token.LEQ: // v <= c | v > c
+			tlo, thi, elo, ehi = cur.lo, c, new(big.Int).Add(c, one), cur.hi
+		default:
+			return nil, nil, fmt.Errorf("comparison %s", op)
+		}
+		mk := func(lo, hi *big.Int) map[types.Object]modAbs {
+			if lo.Cmp(cur.lo) < 0 {
+				lo = cur.lo
+			}
+			if hi.Cmp(cur.hi) > 0 {
+				hi = cur.hi
+			}
+			if lo.Cmp(hi) > 0 {
+				return nil
+			}
+			n := clone(env)
+			v := cur
+			v.lo, v.hi = lo, hi
+			n[obj] = v
+			return n
+		}
+		return mk(tlo, thi), mk(elo, ehi), nil
+	}
+	var exec func(list []ast.Stmt, env map[types.Object]modAbs) (map[types.Object]modAbs, error)
+	exec = func(list []ast.Stmt, env map[types.Object]modAbs) (map[types.Object]modAbs, error) {
+		for _, st := range list {
+			if env == nil {
+				return nil, nil
+			}
+			switch x := st.(type) {
+			case *ast.ReturnStmt:
+				if len(x.Results) != 1 {
+					return nil, fmt.Errorf("return with %d results", len(x.Results))
+				}
+				v, err := f.evalModE(x.Results[0], px, py, M, extern, env)
+				if err != nil {
+					return nil, err
+				}
+				rets = append(rets, x)
+				if result == nil {
+					result = &v
+				} else {
+					j := joinMod(*result, v, M)
+					result = &j
+				}
+				return nil, nil
+			case *ast.AssignStmt:
+				if len(x.Lhs) != 1 || len(x.Rhs) != 1 {
+					return nil, fmt.Errorf("assignment %s", f.Str(x))
+				}
+				id, ok := x.Lhs[0].(*ast.Ident)
+				if !ok {
+					return nil, fmt.Errorf("assignment target %s", f.Str(x.Lhs[0]))
+				}
+				var rhs ast.Expr = x.Rhs[0]
+				switch x.Tok {
+				case token.DEFINE, token.ASSIGN:
+				case token.ADD_ASSIGN:
+					rhs = &ast.BinaryExpr{X: id, Op: token.ADD, Y: x.Rhs[0]}
+				case token.SUB_ASSIGN:
+					rhs = &ast.BinaryExpr{X: id, Op: token.SUB, Y: x.Rhs[0]}
+				case token.REM_ASSIGN:
+					rhs = &ast.BinaryExpr{X: id, Op: token.REM, Y: x.Rhs[0]}
+				default:
+					return nil, fmt.Errorf("assignment operator %s", x.Tok)
+				}
+				v, err := f.evalModE(rhs, px, py, M, extern, env)
+				if err != nil {
+					return nil, err
+				}
+				env = clone(env)
+				env[f.Info.ObjectOf(id)] = v
+			case *ast.DeclStmt:
+				gd, ok := x.Decl.(*ast.GenDecl)
+				if !ok || gd.Tok != token.VAR {
+					return nil, fmt.Errorf("declaration %s", f.Str(x))
+				}
+				for _, sp := range gd.Specs {
+					vs := sp.(*ast.ValueSpec)
+					if len(vs.Names) != 1 || len(vs.Values) > 1 {
+						return nil, fmt.Errorf("declaration %s", f.Str(x))
+					}
+					v := modAbs{lo: big.NewInt(0), hi: big.NewInt(0), linOK: true, cx: big.NewInt(0), cy: big.NewInt(0), c0: big.NewInt(0)}
+					if len(vs.Values) == 1 {
+						var err error
+						if v, err = f.evalModE(vs.Values[0], px, py, M, extern, env); err != nil {
+							return nil, err
+						}
+					}
+					env = clone(env)
+					env[f.Info.Defs[vs.Names[0]]] = v
+				}
+			case *ast.IfStmt:
+				if x.Init != nil {
+					return nil, fmt.Errorf("if with init statement")
+				}
+				tenv, eenv, err := refine(x.Cond, env)
+				if err != nil {
+					return nil, err
+				}
+				tout, err := exec(x.Body.List, tenv)
+				if err != nil {
+					return nil, err
+				}
+				eout := eenv
+				switch el := x.Else.(type) {
+				case nil:
+				case *ast.BlockStmt:
+					if eout, err = exec(el.List, eenv); err != nil {
+						return nil, err
+					}
+				case *ast.IfStmt:
+					if eout, err = exec([]ast.Stmt{el}, eenv); err != nil {
+						return nil, err
+					}
+				}
+				switch {
+				case tout == nil:
+					env = eout
+				case eout == nil:
+					env = tout
+				default:
+					j := map[types.Object]modAbs{}
+					for k, a := range tout {
+						if b, ok := eout[k]; ok {
+							j[k] = joinMod(a, b, M)
+						}
+					}
+					env = j
+				}
+			default:
+				return nil, fmt.Errorf("statement %T", st)
+			}
+		}
+		return env, nil
+	}
+	out, err := exec(f.Body.List, map[types.Object]modAbs{})
+	if err != nil {
+		return modAbs{}, nil, err
+	}
+	if out != nil {
+		return modAbs{}, nil, fmt.Errorf("a path falls off the end of the body")
+	}
+	if result == nil {
+		return modAbs{}, nil, fmt.Errorf("no return")
+	}
+	return *result, rets, nil
 }
 
 // bytesOnlyZeroAndShiftTested verifies that every element read of the first (slice)
